@@ -61,10 +61,11 @@ theorem substituteCore_cert' (h m : NNet) (c : Nat) (hw : WF h) (mw : WF m) (hc 
     (hio : h.net.io.contains c = false) (hcf : (h.net.node c).isFork = false)
     (hr : noIgnoredB h c m = true) (hok : implOKB m = true)
     (h5 : NNet) (map : Array (Option Nat)) (dang : List (Option Nat)) (he : substituteCore h c m = some (h5, map, dang)) :
-    ∃ sh dn, SubstCert h c m sh dn map h5 := by
+    ∃ sh dn, SubstCert h c m sh dn map h5 ∧ WF h5 ∧ dn < m.net.nodes.size := by
   obtain ⟨sh, dn, hs, hd, hni⟩ := noIgnoredB_spec h c m hr
   obtain ⟨k1, k2, k3, k4⟩ := implOKB_spec m mw sh dn hs hd hok
-  exact ⟨sh, dn, substituteCore_cert h c m sh dn hw mw hc (by simpa using hio) hcf hs hd k1 k2 k3 k4 hni h5 map dang he⟩
+  obtain ⟨ct, w5⟩ := substituteCore_cert h c m sh dn hw mw hc (by simpa using hio) hcf hs hd k1 k2 k3 k4 hni h5 map dang he
+  exact ⟨sh, dn, ct, w5, (implShape_des m mw sh dn hs hd).1⟩
 
 theorem Ren.id_comp (r : Ren) : Ren.id.comp r = r := rfl
 
@@ -74,7 +75,7 @@ theorem substitute_removing {α : Type _} (z : α) (neg : α → α) (prim : Str
     (h m h' : NNet) (c : Nat) (hw : WF h) (mw : WF m) (hc : c < h.net.nodes.size)
     (hio : h.net.io.contains c = false) (hcf : (h.net.node c).isFork = false)
     (hr : noIgnoredB h c m = true) (hok : implOKB m = true) (he : substitute h c m = some h') :
-    ∃ h5 map dang sh dn r, substituteCore h c m = some (h5, map, dang) ∧ SubstCert h c m sh dn map h5 ∧
+    ∃ h5 map dang sh dn r, substituteCore h c m = some (h5, map, dang) ∧ SubstCert h c m sh dn map h5 ∧ WF h5 ∧ dn < m.net.nodes.size ∧
       WFm h' ∧ Emb h5 h' r ∧
       (∀ j, j < h5.net.nodes.size → isSeqKind (h5.net.node j).kind = true → ∃ j', j' < h'.net.nodes.size ∧ r.node j' = j) ∧
       Ext z neg prim h5 h' r := by
@@ -82,8 +83,8 @@ theorem substitute_removing {α : Type _} (z : α) (neg : α → α) (prim : Str
   split at he
   · exact absurd he (by simp)
   · rename_i h5 map dang hcore
-    obtain ⟨sh, dn, ct⟩ := substituteCore_cert' h m c hw mw hc hio hcf hr hok h5 map dang hcore
-    obtain ⟨dd, wd⟩ := densNN_dens (map.toList.filterMap id) h5 ct.wf'
+    obtain ⟨sh, dn, ct, w5, hdl⟩ := substituteCore_cert' h m c hw mw hc hio hcf hr hok h5 map dang hcore
+    obtain ⟨dd, wd⟩ := densNN_dens (map.toList.filterMap id) h5 w5
     have he' : removeDangling (dang.length + h5.net.lines.size + 1) (densNN h5 (map.toList.filterMap id))
         (map.toList.filterMap id) dang = some h' := he
     have ho : ∀ x ∈ map.toList.filterMap id, x < (densNN h5 (map.toList.filterMap id)).net.nodes.size := by
@@ -93,14 +94,14 @@ theorem substitute_removing {α : Type _} (z : α) (neg : α → α) (prim : Str
       exact ct.mapLt k x hk
     obtain ⟨w', r, e, sq, ex⟩ := removeDangling_ext z neg prim _ _ _ dang h' wd.toWFm ho he'
     have e5 : Emb h5 h' r := by
-      have := ((dd.emb ct.wf').trans e).weaken (X' := fun _ => False) (fun j _ hx => by rcases hx with hx | hx <;> exact hx)
+      have := ((dd.emb w5.toWFm).trans e).weaken (X' := fun _ => False) (fun j _ hx => by rcases hx with hx | hx <;> exact hx)
       rw [Ren.id_comp] at this
       exact this
     have ex5 : Ext z neg prim h5 h' r := by
-      have := Ext.trans e (dd.ext ct.wf' z neg prim) ex
+      have := Ext.trans e (dd.ext w5.toWFm z neg prim) ex
       rw [Ren.id_comp] at this
       exact this
-    refine ⟨h5, map, dang, sh, dn, r, hcore, ct, w', e5, ?_, ex5⟩
+    refine ⟨h5, map, dang, sh, dn, r, hcore, ct, w5, hdl, w', e5, ?_, ex5⟩
     intro j hj hs
     exact sq j (by rw [dd.nsize]; exact hj) (by rw [dd.kind]; exact hs)
 
